@@ -166,3 +166,6 @@ func VerifSendArbitrary(g *VerifGroup, chid datatransfer.ChannelID, code datatra
 func VerifView(rec *internal.ChannelState) datatransfer.ChannelState {
 	return fromInternalChannelState(*rec)
 }
+
+// VerifInitiatorInv is the inductive invariant of C03 (see c03.go verifInv), exported for impl-level steps.
+func VerifInitiatorInv(s datatransfer.Status, F, R, L bool) bool { return verifInv(s, F, R, L) }
